@@ -62,9 +62,32 @@ Print Assumptions C07_no_orphan_files_after_recover.
 Theorem C07_source_orders : startup_purge_before_sweep = true /\ startup_rows_before_files = true /\
   session_end_rows_before_files = true /\ conn_delete_releases_remote_id = true /\
   commit_error_always_returned = true /\ conn_create_cleanup_keeps_error = true /\ recovery_move_marks_old_copy = true /\
-  redownload_refills_served_bytes = true /\ recovered_import_writes_new_id = true /\ failed_init_keeps_database = true.
-Proof. exact (conj eq_refl (conj eq_refl (conj eq_refl (conj eq_refl (conj eq_refl (conj eq_refl (conj eq_refl (conj eq_refl (conj eq_refl eq_refl))))))))). Qed.
+  redownload_refills_served_bytes = true /\ recovered_import_writes_new_id = true /\ failed_init_keeps_database = true /\
+  chunk_loops_bind_their_chunk = true.
+Proof. exact (conj eq_refl (conj eq_refl (conj eq_refl (conj eq_refl (conj eq_refl (conj eq_refl (conj eq_refl (conj eq_refl (conj eq_refl (conj eq_refl eq_refl)))))))))). Qed.
 Print Assumptions C07_source_orders.
+
+(* chunking (xslices.Chunk): the chunks of a list, concatenated, are the list, and no chunk is longer than the chunk size *)
+Theorem C07_chunks_partition : forall (n : nat) (l : list N), (0 < n)%nat ->
+  concat (cs_chunks n l) = l /\ forall c, In c (cs_chunks n l) -> (length c <= n)%nat.
+Proof. exact (fun n l Hn => conj (chunks_concat n l Hn) (chunks_bounded n l)). Qed.
+Print Assumptions C07_chunks_partition.
+
+(* hence a statement run chunk by chunk, each chunk binding ITS OWN ids — what every chunk loop of the SQLite layer does
+   according to the fact read from the source — has the effect of the statement over the whole list: for every list
+   length (also beyond db.ChunkLimit), every chunk size, every statement kind (purge, flag changes, row deletes ...) *)
+Theorem C07_chunked_statements_equal_whole : forall n f ids d, (0 < n)%nat ->
+  apply_stmts (cs_chunked_stmts chunk_loops_bind_their_chunk n f ids) d = apply_stmts (map f ids) d.
+Proof. exact chunked_stmts_whole. Qed.
+Print Assumptions C07_chunked_statements_equal_whole.
+
+(* when a chunk's statement binds the whole list instead (the first |chunk| elements are used) the tail is never
+   processed: 3 messages marked for deletion, chunk size 2 -> message 3 survives the purge *)
+Theorem C07_chunk_bound_to_whole_list_differs : exists n ids d,
+  cs_has_msg (apply_stmts (cs_chunked_stmts false n StDeleteMsg ids) d) 3 = true /\
+  cs_has_msg (apply_stmts (map StDeleteMsg ids) d) 3 = false.
+Proof. exists 2%nat, [1; 2; 3], (mkDb [] [(1, true); (2, true); (3, true)] [] []). vm_compute. auto. Qed.
+Print Assumptions C07_chunk_bound_to_whole_list_differs.
 
 (* a cache file is lost and the message is downloaded again: with the refill FOUND IN THE SOURCE the bytes served then are
    served again by every later fetch (does not type-check when getLiteral refills the cache with other bytes) *)
